@@ -10,7 +10,9 @@ for d in $ROOT/seeded/$glob/; do
   id=$(basename $d)
   read check tier key < <(python3 -c "import json;m=json.load(open('$d/meta.json'));x=m['detected_by'];print(x['check'],x['tier'],x['finding_key'])")
   s=$(date +%s)
-  r=$(MUT_WORKTREE=1 $ROOT/tools/runmutant.sh $d/patch.diff $tier $check 2>&1 | tail -1)
+  # first attempt with a short budget (REGRESS_BUDGET, default: the tier's own), a second one with the full budget if that misses
+  r=$(MUT_WORKTREE=1 VERIF_BUDGET=${REGRESS_BUDGET:-} $ROOT/tools/runmutant.sh $d/patch.diff $tier $check 2>&1 | tail -1)
+  case "$r" in *"exit=1 "*) ;; *) [ -n "${REGRESS_BUDGET:-}" ] && r=$(MUT_WORKTREE=1 $ROOT/tools/runmutant.sh $d/patch.diff $tier $check 2>&1 | tail -1)" (second attempt, full budget)" ;; esac
   e=$(( $(date +%s) - s ))
   case "$r" in
     *"exit=1 "*) st=detected ;;
